@@ -249,6 +249,12 @@ func (g *Gen) sortOf(t types.Type) *Sort {
 	if isTimeType(t) {
 		return sInt
 	}
+	if tp, ok := t.(*types.TypeParam); ok && !g.bv && numericTypeParam(tp) {
+		// a type parameter whose constraint admits only numeric types: one totally ordered domain, modelled as the
+		// mathematical integers (the float instantiations' NaN is not modelled; reported in the evidence)
+		g.note(fmt.Sprintf("ASSUMED in %s: type parameter %s (numeric constraint) modelled as a totally ordered integer domain; NaN of float instantiations not modelled", g.key, tp.Obj().Name()))
+		return sInt
+	}
 	switch u := t.Underlying().(type) {
 	case *types.Basic:
 		switch {
@@ -288,6 +294,50 @@ func (g *Gen) sortOf(t types.Type) *Sort {
 		return sRef
 	}
 	return sRef
+}
+
+// numericTypeParam: every term of the constraint's type set is an integer or float basic type.
+func numericTypeParam(tp *types.TypeParam) bool {
+	iface, ok := tp.Constraint().Underlying().(*types.Interface)
+	if !ok {
+		return false
+	}
+	seen := false
+	var walk func(t types.Type) bool
+	walk = func(t types.Type) bool {
+		switch u := types.Unalias(t).(type) {
+		case *types.Union:
+			for i := 0; i < u.Len(); i++ {
+				if !walk(u.Term(i).Type()) {
+					return false
+				}
+			}
+			return true
+		case *types.Named:
+			if in, ok := u.Underlying().(*types.Interface); ok {
+				for i := 0; i < in.NumEmbeddeds(); i++ {
+					if !walk(in.EmbeddedType(i)) {
+						return false
+					}
+				}
+				return in.NumEmbeddeds() > 0
+			}
+			return walk(u.Underlying())
+		case *types.Basic:
+			seen = true
+			return u.Info()&(types.IsInteger|types.IsFloat) != 0
+		}
+		return false
+	}
+	if iface.NumEmbeddeds() == 0 {
+		return false
+	}
+	for i := 0; i < iface.NumEmbeddeds(); i++ {
+		if !walk(iface.EmbeddedType(i)) {
+			return false
+		}
+	}
+	return seen
 }
 
 func isTimeType(t types.Type) bool {
